@@ -41,10 +41,10 @@ def cap(s):
 
 
 # ---------------------------------------------------------------- substitution
-def subst(t, env, this):
+def subst(t, env, this, depth=0):
     """replace template parameters (by exact component match), scoped uses P::X, and `This`"""
     _, const, ns, name, targs, mark = t
-    targs2 = tuple(subst(a, env, this) for a in targs)
+    targs2 = tuple(subst(a, env, this, depth + 1) for a in targs)
     if not ns and name in env and not targs:
         r = env[name]
         return ('T', const, r[2], r[3], r[4], mark)
@@ -57,8 +57,11 @@ def subst(t, env, this):
     if 'This' in ns and this is not None:
         i = ns.index('This')
         comp = this[3] + (('<' + ', '.join(cpp_type(a) for a in this[4]) + '>') if this[4] else '')
-        # DOCS.md: the user writes the namespace in front (`gtsam::This::Enum`); `This` stands for the class name only
-        return ('T', const, tuple(ns[:i]) + (comp,) + tuple(ns[i + 1:]), name, targs2, mark)
+        # DOCS.md: the user writes the namespace in front (`gtsam::This::Enum`): at the top level `This` stands for the
+        # class name only; inside template arguments the class is spelled with its namespaces (both are the same C++ type
+        # when the user follows the documented convention)
+        full = tuple(this[2]) if depth >= 1 else ()
+        return ('T', const, tuple(ns[:i]) + full + (comp,) + tuple(ns[i + 1:]), name, targs2, mark)
     return ('T', const, ns, name, targs2, mark)
 
 
